@@ -34,6 +34,10 @@ pub struct Case {
     /// name itself (blanks, a leading '(' '!' ',' ')', newline, quote ...)
     #[serde(default)]
     pub top: Option<String>,
+    /// the starting point is a symbolic link `c/ln` to the tree's top directory, followed with -H
+    /// (and spelled as given - no slash is to appear behind it), also under -depth
+    #[serde(default)]
+    pub hlink: bool,
 }
 
 fn gen_hostile_name(g: &mut Gen, long_mode: bool, uniform_unit: Option<&'static str>) -> String {
@@ -106,9 +110,13 @@ pub fn gen_case(g: &mut Gen) -> Case {
         // directory can only be named with something in front
         let needs_prefix = t.starts_with('-') || ["(", ")", "!", ","].contains(&t.as_str());
         let root = if needs_prefix { format!("./{t}") } else { match g.below(5) { 0 | 1 => t.clone(), 2 => format!("{t}/"), 3 => format!("{t}/."), _ => format!("{t}//") } };
-        return Case { tree: TreeSpec { nodes }, root, pipeline: true, depth: g.chance(1, 4), xargs_room: None, top: Some(t) };
+        return Case { tree: TreeSpec { nodes }, root, pipeline: true, depth: g.chance(1, 4), xargs_room: None, top: Some(t), hlink: false };
     }
-    Case { top: None, tree: TreeSpec { nodes }, root: g.pick(&["c/r", "c/r/", "./c/r", "c/r/.", "c//r"]).to_string(), pipeline: if long_mode { g.chance(1, 2) } else { g.chance(1, 6) }, depth: g.chance(1, 4), xargs_room: if g.chance(1, 2) { Some(g.pick(&[6_000u32, 9_000, 14_000, 24_000, 40_000, 70_000])) } else { None } }
+    if !long_mode && g.chance(1, 8) {
+        nodes.push(Node::new("c/ln", Kind::Link("r".into())));
+        return Case { top: None, hlink: true, tree: TreeSpec { nodes }, root: g.pick(&["c/ln", "c/ln", "./c/ln", "c//ln"]).to_string(), pipeline: g.chance(1, 3), depth: g.chance(2, 3), xargs_room: None };
+    }
+    Case { top: None, hlink: false, tree: TreeSpec { nodes }, root: g.pick(&["c/r", "c/r/", "./c/r", "c/r/.", "c//r"]).to_string(), pipeline: if long_mode { g.chance(1, 2) } else { g.chance(1, 6) }, depth: g.chance(1, 4), xargs_room: if g.chance(1, 2) { Some(g.pick(&[6_000u32, 9_000, 14_000, 24_000, 40_000, 70_000])) } else { None } }
 }
 
 fn special(name: &str) -> bool {
@@ -118,7 +126,7 @@ fn special(name: &str) -> bool {
 pub fn check(ctx: &mut Ctx, c: &Case) -> Outcome {
     ctx.fresh_case_dir();
     c.tree.build();
-    let wo = WalkOpts { follow: FollowMode::P, depth_first: c.depth, ..Default::default() };
+    let wo = WalkOpts { follow: if c.hlink { FollowMode::H } else { FollowMode::P }, depth_first: c.depth, ..Default::default() };
     let (entries, _) = ref_paths(&if c.top.is_some() { format!("c/{}", c.root) } else { c.root.clone() }, &wo);
     let paths: Vec<String> = entries.iter().map(|e| if c.top.is_some() { e.path[2..].to_string() } else { e.path.clone() }).collect();
     let mut want0: Vec<u8> = vec![];
@@ -129,7 +137,7 @@ pub fn check(ctx: &mut Ctx, c: &Case) -> Outcome {
         wantn.extend_from_slice(p.as_bytes());
         wantn.push(b'\n');
     }
-    let mut base: Vec<&str> = vec![&c.root, "-sorted"];
+    let mut base: Vec<&str> = if c.hlink { vec!["-H", &c.root, "-sorted"] } else { vec![&c.root, "-sorted"] };
     if c.depth {
         base.push("-depth");
     }
@@ -188,6 +196,17 @@ pub fn check(ctx: &mut Ctx, c: &Case) -> Outcome {
             return fail(format!("C07:xargs-0-delivery-differs:{}", hostile_kinds()), format!("find {a:?} | xargs -0 rec\nexit {:?} stderr {:?}\npaths: {:?}\ndelivered: {:?}", run.out.code, lossy(&run.out.stderr), paths, got.iter().map(|g| lossy(g)).collect::<Vec<_>>()));
         }
     }
+    if c.pipeline && c.top.is_some() && paths.iter().all(|p| p.len() < 3000) {
+        // the same stream through xargs -0 -I{}: one run per path, the path substituted unmodified
+        let mut a: Vec<OsString> = base.iter().map(|s| OsString::from(*s)).collect();
+        a.push("-print0".into());
+        let run = run_xargs(ctx, &["-0".into(), "-I".into(), "{}".into()], &[rec_path(), "{}".into()], &want0, "", BinOpts { clear_env: true, ..Default::default() });
+        let got: Vec<Vec<Vec<u8>>> = run.records.iter().map(|r| r.args.clone()).collect();
+        let want: Vec<Vec<Vec<u8>>> = paths.iter().map(|p| vec![p.as_bytes().to_vec()]).collect();
+        if run.out.code != Some(0) || got != want {
+            return fail(format!("C07:xargs-0-I-delivery-differs:{}", hostile_kinds()), format!("find {a:?} | xargs -0 -I{{}} rec {{}}\nexit {:?} stderr {:?}\npaths: {:?}\ndelivered: {:?}", run.out.code, lossy(&run.out.stderr), paths, got.iter().map(|r| r.iter().map(|g| lossy(g)).collect::<Vec<_>>()).collect::<Vec<_>>()));
+        }
+    }
     let nt = c.tree.nodes.iter().any(|n| special(n.name()));
     Pass::new(nt)
         .class_if(c.pipeline, "binary-pipeline")
@@ -198,6 +217,7 @@ pub fn check(ctx: &mut Ctx, c: &Case) -> Outcome {
         .class_if(c.tree.nodes.iter().any(|n| n.name().starts_with('-')), "leading-dash")
         .class_if(c.root != "c/r" && c.top.is_none(), "root-spelled-differently")
         .class_if(c.top.is_some(), "hostile-starting-point-given-bare")
+        .class_if(c.hlink, "link-starting-point-under-H")
         .class_if(c.top.as_ref().map_or(false, |t| t.starts_with(['(', ')', '!', ','])), "starting-point-begins-like-an-operator")
         .sample(json!({"root": c.root, "paths": paths.iter().take(6).collect::<Vec<_>>(), "pipeline": c.pipeline}))
         .ok()
